@@ -18,6 +18,9 @@ impl Out {
     pub fn count(&mut self, key: &str) {
         *self.dist.entry(key.to_string()).or_insert(0) += 1;
     }
+    pub fn count_n(&mut self, key: &str, n: u64) {
+        *self.dist.entry(key.to_string()).or_insert(0) += n;
+    }
     pub fn write_case(&mut self, mut case: Value, imp: Value) {
         let fam = case["fam"].as_str().unwrap_or("?").to_string();
         case["impl"] = imp;
